@@ -98,6 +98,9 @@ func (s *streamHTTP) writeMsg(c Codec, b []byte, contentType string) (int, error
 		if !ok {
 			return count, fmt.Errorf("codec %s does not support streaming", codec.Name())
 		}
+		if len(b) > s.opts.maxSendMessageSize {
+			return count, fmt.Errorf("max send message size reached")
+		}
 		_, err := codec.WriteNext(s.w, b)
 		return count, err
 	}
